@@ -193,7 +193,7 @@ void SAFE(zzRedBarr)(word a[], const word mod[], size_t n,
 		w &= wordEq01(mod[i], a[i]);
 		w |= wordLess01(mod[i], a[i]);
 	}
-	w |= a[n], w = WORD_0 - w;
+	w |= wordLess01(0, a[n]), w = WORD_0 - w;
 	a[n] -= zzSubAndW(a, mod, n, w);
 	// a >= mod? => a -= mod
 	for (i = 0, w = 1; i < n; ++i)
@@ -201,7 +201,7 @@ void SAFE(zzRedBarr)(word a[], const word mod[], size_t n,
 		w &= wordEq01(mod[i], a[i]);
 		w |= wordLess01(mod[i], a[i]);
 	}
-	w |= a[n], w = WORD_0 - w;
+	w |= wordLess01(0, a[n]), w = WORD_0 - w;
 	zzSubAndW(a, mod, n, w);
 	// очистка
 	w = 0;
